@@ -237,6 +237,18 @@ class ValueSpecBase(ValueSpec):
       raise TypeError(f'{self!r} cannot extend {base!r}: '
                       f'None is not allowed in base spec.')
     self._extend(base)  # pytype: disable=wrong-arg-types  # always-use-return-annotations
+    if MISSING_VALUE != self._default and self._default is not None:
+      # The default must still be acceptable under the constraints inherited
+      # from the base.
+      frozen, self._frozen = self._frozen, False
+      try:
+        self.apply(self._default, allow_partial=True)
+      except (TypeError, ValueError, KeyError) as e:
+        raise TypeError(
+            f'{self!r} cannot extend {base!r}: the default value is not '
+            f'acceptable after extension: {e}') from e
+      finally:
+        self._frozen = frozen
     return self
 
   def _extend(self, base: ValueSpec) -> None:
